@@ -1,4 +1,5 @@
 import JjModel.Lemmas.IndexGca
+import JjModel.Lemmas.IndexMerge
 /-!
   C18 — The commit index answers exactly as the commit graph.
 
@@ -273,6 +274,126 @@ theorem segments_of_flatten (idx : Index) (sizes : List Nat) (h : sizes.sum = id
   rw [segments_flatten _ hwf, hfl]
   simp [h]
 
+/-! ### growth of the index: squash rule, `add_commit_data` with ids, `merge_in` -/
+
+/-- `maybe_squash_with_ancestors` + `save_in` keep every commit: the local sizes of the saved
+stack add up to the old stack plus the new commits. -/
+theorem squash_preserves_count (new : Nat) (levels : List Nat) :
+    (squashSizes new levels).sum = new + levels.sum := by
+  have hgen : ∀ (n : Nat) (l : List Nat), (squashLoop n l).1 + (squashLoop n l).2.sum = n + l.sum := by
+    intro n l
+    induction l generalizing n with
+    | nil => simp [squashLoop]
+    | cons p rest ih =>
+      simp only [squashLoop]
+      split
+      · rfl
+      · rw [ih]; simp only [List.sum_cons]; omega
+  have := hgen new levels
+  unfold squashSizes
+  generalize squashLoop new levels = r at this
+  obtain ⟨n, rest⟩ := r
+  cases n with
+  | zero => simpa using this
+  | succ n => simpa using this
+
+/-- … and the saved stack again has every file more than twice as large as its child (so the
+number of segment files stays logarithmic). -/
+theorem squash_keeps_halving (new : Nat) (levels : List Nat) (hh : Halving levels) :
+    Halving (squashSizes new levels) := by
+  obtain ⟨_, h2, _, _⟩ := squashLoop_spec new levels hh
+  unfold squashSizes
+  generalize squashLoop new levels = r at h2
+  obtain ⟨n, rest⟩ := r
+  cases n with
+  | zero => exact h2.tail
+  | succ n => exact h2
+
+/-- `add_commit_data` on an index with ids keeps ids unique and the graph part well-formed,
+whatever it is given (an already indexed id is ignored). -/
+theorem add_commit_data_preserves_wf {idx : IdIndex} (hwf : IdWF idx) (id : Nat) (parentIds : List Nat) :
+    IdWF (addCommitData idx id parentIds) := addCommitData_wf hwf id parentIds
+
+/-- the id-level parent relation of an index is the position-level one read through the ids -/
+theorem id_edge_iff_parents {idx : IdIndex} (c p : Nat) :
+    IdEdge idx c p ↔ ∃ pc pp, idAt idx pc = some c ∧ idAt idx pp = some p ∧ pp ∈ parentsOf (toIndex idx) pc := by
+  constructor
+  · rintro ⟨e, he, hid, hp⟩
+    obtain ⟨i, hi, hget⟩ := List.mem_iff_getElem.mp he
+    obtain ⟨q, hq, hidq⟩ := List.mem_filterMap.mp hp
+    refine ⟨i, q, by simp [idAt, List.getElem?_eq_getElem hi, hget, hid], hidq, ?_⟩
+    simp [parentsOf, toIndex, List.getElem?_eq_getElem hi, hget, hq]
+  · rintro ⟨pc, pp, hc, hpp, hmem⟩
+    unfold idAt at hc
+    cases he : idx[pc]? with
+    | none => simp [he] at hc
+    | some e =>
+      simp [he] at hc
+      refine ⟨e, List.mem_of_getElem? he, hc, ?_⟩
+      have : parentsOf (toIndex idx) pc = e.parents := by simp [parentsOf, toIndex, he]
+      rw [this] at hmem
+      exact List.mem_filterMap.mpr ⟨pp, hmem, hpp⟩
+
+/-- `merge_in`: the merged index is well-formed, keeps the positions of `self`, contains exactly
+the union of the two id sets, and describes the union of the two commit graphs.
+Assumptions: the commits below the common segment file found by the stack walk are in `self`
+(equal file ids denote the same file — names are content hashes — and a file determines its whole
+ancestor chain), and a commit id determines its parents (ids are content hashes). -/
+theorem merge_in_union {self other : IdIndex} (hself : IdWF self) (hother : IdWF other)
+    (ownFiles otherFiles : List (Nat × Nat))
+    (hbase : ∀ q, q < commonBase (ownFiles.length + otherFiles.length + 1) ownFiles otherFiles →
+      ∀ i, idAt other q = some i → i ∈ ids self)
+    (hcons : ∀ c p, c ∈ ids self → c ∈ ids other → (IdEdge self c p ↔ IdEdge other c p)) :
+    IdWF (mergeIn self ownFiles other otherFiles) ∧
+    (∃ ext, mergeIn self ownFiles other otherFiles = self ++ ext) ∧
+    (∀ x, x ∈ ids (mergeIn self ownFiles other otherFiles) ↔ x ∈ ids self ∨ x ∈ ids other) ∧
+    (∀ c p, IdEdge (mergeIn self ownFiles other otherFiles) c p ↔ IdEdge self c p ∨ IdEdge other c p) := by
+  unfold mergeIn
+  generalize commonBase (ownFiles.length + otherFiles.length + 1) ownFiles otherFiles = k at hbase
+  obtain ⟨hwf, hpre, hids, hedges⟩ := addCommitsFrom_spec hself hother k hbase
+  have hsplit : ∀ x, x ∈ ids other ↔ x ∈ ids (other.take k) ∨ x ∈ ids (other.drop k) := by
+    intro x
+    have : ids other = ids (other.take k) ++ ids (other.drop k) := by
+      simp only [ids, ← List.map_append, List.take_append_drop]
+    rw [this, List.mem_append]
+  have htake : ∀ x, x ∈ ids (other.take k) → x ∈ ids self := by
+    intro x hx
+    obtain ⟨e, he, rfl⟩ := List.mem_map.mp hx
+    obtain ⟨i, hi, hget⟩ := List.mem_iff_getElem.mp he
+    have hik : i < k := by simp [List.length_take] at hi; omega
+    apply hbase i hik
+    have : other[i]? = some e := by
+      have h1 : (other.take k)[i]? = some e := by rw [List.getElem?_eq_getElem hi, hget]
+      rwa [List.getElem?_take_of_lt hik] at h1
+    simp [idAt, this]
+  refine ⟨hwf, hpre, ?_, ?_⟩
+  · intro x
+    rw [hids, hsplit]
+    constructor
+    · rintro (h | h)
+      · exact Or.inl h
+      · exact Or.inr (Or.inr h)
+    · rintro (h | h | h)
+      · exact Or.inl h
+      · exact Or.inl (htake x h)
+      · exact Or.inr h
+  · intro c p
+    rw [hedges]
+    constructor
+    · rintro (h | ⟨_, _, h⟩)
+      · exact Or.inl h
+      · exact Or.inr h
+    · rintro (h | h)
+      · exact Or.inl h
+      · have hco : c ∈ ids other := by
+          obtain ⟨e, he, hid, _⟩ := h
+          exact List.mem_map.mpr ⟨e, he, hid⟩
+        by_cases hcs : c ∈ ids self
+        · exact Or.inl ((hcons c p hcs hco).mpr h)
+        · rcases (hsplit c).mp hco with ht | hd
+          · exact absurd (htake c ht) hcs
+          · exact Or.inr ⟨hcs, hd, h⟩
+
 /-! ### non-vacuity: a concrete well-formed index with an octopus merge, and the answers on it -/
 
 /-- `0 ← 1, 0 ← 2, {1,2} ← 3, 1 ← 4, {3,4,2} ← 5` -/
@@ -287,6 +408,13 @@ example : commonAncestorsPos sample [3] [4] = [1] := by decide
 example : commonAncestorsPos sample [3] [4, 2] = [2, 1] := by decide
 example : allHeadsPos sample = [5] := by decide
 example : genOf sample 5 = 3 := by decide
+example : squashSizes 2 [3, 8] = [13] ∧ squashSizes 1 [3, 8] = [1, 3, 8] := by decide
+example : Halving [3, 8] := by simp [Halving]
+example : IdWF [⟨0, [], 0⟩, ⟨1, [0], 1⟩, ⟨2, [1], 2⟩] := ⟨by decide, by
+  have : toIndex [⟨0, [], 0⟩, ⟨1, [0], 1⟩, ⟨2, [1], 2⟩] = build [[], [0], [1]] := by decide
+  rw [this]; exact build_wf _ (by simp [ParentsBefore])⟩
+example : (mergeIn [⟨0, [], 0⟩, ⟨1, [0], 1⟩, ⟨2, [1], 2⟩] [(3, 2), (2, 1)] [⟨0, [], 0⟩, ⟨1, [0], 1⟩, ⟨3, [1], 2⟩, ⟨4, [0, 2], 3⟩]
+    [(4, 3), (2, 1)]).map (·.id) = [0, 1, 2, 3, 4] := by decide
 example : entryByPos (segmentsOf sample [3, 2, 1] 0 []) 4 = some { parents := [1], gen := 2 } := by decide
 
 end JjModel.C18
